@@ -12,7 +12,7 @@ Definition lay_cr : lay1 := Lay1 [] [] [] [] [] [] [] [] [] [] [] [13] [13] [13]
 Definition body1 : text := T "<OFX></OFX>".
 Definition body2 : text := T "<OFX><A><B>caf" ++ [233; 32; 8364] ++ T "</B></A></OFX>".
 Definition exh2 : hdr2 := Hdr2 200 203 (T "NONE") (T "NONE") (T "NONE").
-Definition lay_oneline : lay2 := Lay2 [] 34 [] [].
+Definition lay_oneline : lay2 := Lay2 [] (Some 34) (Some 34) (Some 34) [] [].
 Definition enc (cd : N) (s : text) : text := match encode_opt cd s with Some b => b | None => [] end.
 Theorem asis_refuted :
   parse_header_asis (file1 lay_glued exh (enc 1 body1)) = OK (H1 exh, T "OFX></OFX>")
